@@ -315,7 +315,14 @@ func (fe *formEval) eval1(v ssa.Value) poly {
 				return atomPoly("Pow10(" + fe.eval(x.Call.Args[0]).String() + ")")
 			}
 		}
-		if sc := x.Call.StaticCallee(); sc != nil && sc.Name() == "min" && len(x.Call.Args) == 2 {
+		if b, ok := x.Call.Value.(*ssa.Builtin); ok && b.Name() == "min" && len(x.Call.Args) == 2 {
+			a, bb := fe.eval(x.Call.Args[0]).String(), fe.eval(x.Call.Args[1]).String()
+			if a > bb {
+				a, bb = bb, a
+			}
+			return atomPoly("min(" + a + "," + bb + ")")
+		}
+		if sc := x.Call.StaticCallee(); sc != nil && (sc.Name() == "min" || strings.HasPrefix(sc.Name(), "min[")) && len(x.Call.Args) == 2 && isMinFunction(sc) {
 			a, b := fe.eval(x.Call.Args[0]).String(), fe.eval(x.Call.Args[1]).String()
 			if a > b {
 				a, b = b, a
@@ -802,4 +809,69 @@ func (fe *formEval) evalAlts(v ssa.Value) []formAlt {
 		out = append(out, formAlt{form: sub.eval(v), from: alt.from, at: alt.at})
 	}
 	return out
+}
+
+// isMinFunction: the function returns its smaller argument: if a < b { return a }; return b.
+func isMinFunction(f *ssa.Function) bool {
+	if len(f.Params) != 2 || f.Blocks == nil {
+		return false
+	}
+	a, b := ssa.Value(f.Params[0]), ssa.Value(f.Params[1])
+	ok := true
+	n := 0
+	for _, ri := range returnsOf(f) {
+		if len(ri.Vals) != 1 {
+			return false
+		}
+		n++
+		v := ri.Vals[0]
+		blk := ri.Ret.Block()
+		// find the dominating comparison edge
+		good := false
+		for _, bb := range f.Blocks {
+			if len(bb.Instrs) == 0 {
+				continue
+			}
+			ifi, isIf := bb.Instrs[len(bb.Instrs)-1].(*ssa.If)
+			if !isIf {
+				continue
+			}
+			bo, isBo := ifi.Cond.(*ssa.BinOp)
+			if !isBo {
+				continue
+			}
+			for i, s := range bb.Succs {
+				if !edgeDominates(bb, s, blk) {
+					continue
+				}
+				taken := i == 0
+				// normalise to a OP b
+				op := bo.Op
+				x, y := bo.X, bo.Y
+				if x == b && y == a {
+					switch op {
+					case token.LSS:
+						op = token.GTR
+					case token.LEQ:
+						op = token.GEQ
+					case token.GTR:
+						op = token.LSS
+					case token.GEQ:
+						op = token.LEQ
+					}
+				} else if !(x == a && y == b) {
+					continue
+				}
+				aSmaller := (taken && (op == token.LSS || op == token.LEQ)) || (!taken && (op == token.GTR || op == token.GEQ))
+				bSmaller := (taken && (op == token.GTR || op == token.GEQ)) || (!taken && (op == token.LSS || op == token.LEQ))
+				if (v == a && aSmaller) || (v == b && bSmaller) {
+					good = true
+				}
+			}
+		}
+		if !good {
+			ok = false
+		}
+	}
+	return ok && n >= 2
 }
